@@ -166,3 +166,159 @@ Theorem erased_calls_same_outcome ops1 ops2 :
 Proof.
   intros He. rewrite <- (hier_run_erase ops1 hb_new), <- (hier_run_erase ops2 hb_new), He. reflexivity.
 Qed.
+
+(* ------------------------------------------------------------------ the same for the shape alone: names, nesting, order,
+   encodings and widths, bit ranges, signals - whatever the kinds, components, directions, source locators and type names *)
+Definition shape_scope (s : scope) : scope :=
+  mk_scope (sc_name s) None 0 None (sc_child s) (sc_parent s) (sc_next s).
+Definition shape_var (v : var) : var :=
+  mk_var (v_name v) 0 0 (v_enc v) (v_index v) (v_signal v) None (v_parent v) (v_next v).
+Definition shape_b (b : builder) : builder :=
+  mk_builder (map shape_var (hb_vars b)) (map shape_scope (hb_scopes b)) (hb_first b) (hb_stack b) (hb_handles b).
+Definition shape_op (op : hier_op) : hier_op :=
+  match op with
+  | HScope nm _ _ _ f => HScope nm None 0 None f
+  | HVar nm _ _ e i s _ => HVar nm 0 0 e i s None
+  | HPop => HPop
+  end.
+
+Lemma set_scope_next_shape ss i n :
+  set_scope_next (map shape_scope ss) i n = omap (map shape_scope) (set_scope_next ss i n).
+Proof.
+  unfold set_scope_next. rewrite nth_error_map. destruct (nth_error ss i) as [s|]; cbn [option_map omap]; [|reflexivity].
+  cbn [shape_scope sc_next sc_name sc_component sc_tpe sc_decl sc_child sc_parent]. destruct (sc_next s); [reflexivity|].
+  cbn [omap]. rewrite <- list_update_map. reflexivity.
+Qed.
+
+Lemma set_scope_child_shape ss i n :
+  set_scope_child (map shape_scope ss) i n = omap (map shape_scope) (set_scope_child ss i n).
+Proof.
+  unfold set_scope_child. rewrite nth_error_map. destruct (nth_error ss i) as [s|]; cbn [option_map omap]; [|reflexivity].
+  cbn [shape_scope sc_next sc_name sc_component sc_tpe sc_decl sc_child sc_parent]. destruct (sc_child s); [reflexivity|].
+  cbn [omap]. rewrite <- list_update_map. reflexivity.
+Qed.
+
+Lemma set_var_next_shape vs i n :
+  set_var_next (map shape_var vs) i n = omap (map shape_var) (set_var_next vs i n).
+Proof.
+  unfold set_var_next. rewrite nth_error_map. destruct (nth_error vs i) as [v|]; cbn [option_map omap]; [|reflexivity].
+  cbn [shape_var v_next v_name v_tpe v_direction v_enc v_index v_signal v_type_name v_parent]. destruct (v_next v); [reflexivity|].
+  cbn [omap]. rewrite <- list_update_map. reflexivity.
+Qed.
+
+Definition shape_bp (x : builder * option nat) : builder * option nat := (shape_b (fst x), snd x).
+
+Lemma add_to_tree_shape b node : add_to_tree (shape_b b) node = omap shape_bp (add_to_tree b node).
+Proof.
+  unfold add_to_tree. cbn [shape_b hb_stack hb_vars hb_scopes hb_first hb_handles].
+  destruct (find_parent_pos (hb_stack b)) as [pos| |]; cbn [bind omap]; [|reflexivity..].
+  destruct (nth_error (hb_stack b) pos) as [entry|]; cbn [of_option bind omap]; [|reflexivity].
+  destruct (se_last_child entry) as [[c|c]|].
+  - rewrite set_scope_next_shape. destruct (set_scope_next (hb_scopes b) c (Some node)); cbn [omap bind]; reflexivity.
+  - rewrite set_var_next_shape. destruct (set_var_next (hb_vars b) c (Some node)); cbn [omap bind]; reflexivity.
+  - destruct (se_scope entry) as [p|]; [|reflexivity].
+    rewrite set_scope_child_shape. destruct (set_scope_child (hb_scopes b) p (Some node)); cbn [omap bind]; reflexivity.
+Qed.
+
+Lemma get_next_shape b it : get_next (shape_b b) it = get_next b it.
+Proof.
+  destruct it as [i|i]; cbn [get_next shape_b hb_scopes hb_vars]; rewrite nth_error_map.
+  - destruct (nth_error (hb_scopes b) i); reflexivity.
+  - destruct (nth_error (hb_vars b) i); reflexivity.
+Qed.
+
+Lemma find_dup_loop_shape fuel b nm : forall item,
+  find_dup_loop fuel (shape_b b) nm item = find_dup_loop fuel b nm item.
+Proof.
+  induction fuel as [|f IH]; intros item; cbn [find_dup_loop]; [reflexivity|].
+  destruct item as [it|]; [|reflexivity].
+  assert (E : (match it with
+               | IScope i => do s <- of_option (nth_error (hb_scopes (shape_b b)) i); Ok (if list_eqb (sc_name s) nm then Some i else None)
+               | IVar _ => Ok None end)
+            = (match it with
+               | IScope i => do s <- of_option (nth_error (hb_scopes b) i); Ok (if list_eqb (sc_name s) nm then Some i else None)
+               | IVar _ => Ok None end)).
+  { destruct it as [i|i]; [|reflexivity]. cbn [shape_b hb_scopes]. rewrite nth_error_map.
+    destruct (nth_error (hb_scopes b) i); reflexivity. }
+  rewrite E. clear E.
+  match goal with |- context [bind ?x _] => destruct x as [[i|]| |] end; cbn [bind]; try reflexivity.
+  rewrite get_next_shape. destruct (get_next b it); cbn [bind]; [apply IH|reflexivity..].
+Qed.
+
+Lemma items_fuel_shape b : items_fuel (shape_b b) = items_fuel b.
+Proof. unfold items_fuel. cbn [shape_b hb_vars hb_scopes]. now rewrite !map_length. Qed.
+
+Lemma find_duplicate_scope_shape b nm : find_duplicate_scope (shape_b b) nm = find_duplicate_scope b nm.
+Proof.
+  unfold find_duplicate_scope. rewrite items_fuel_shape. cbn [shape_b hb_stack hb_first hb_scopes].
+  destruct (find_parent_pos (hb_stack b)) as [pos| |]; cbn [bind]; [|reflexivity..].
+  destruct (nth_error (hb_stack b) pos) as [parent|]; cbn [of_option bind]; [|reflexivity].
+  destruct (se_scope parent) as [p|].
+  - rewrite nth_error_map. destruct (nth_error (hb_scopes b) p) as [s|]; cbn [option_map of_option bind]; [|reflexivity].
+    cbn [shape_scope sc_child]. apply (find_dup_loop_shape _ b nm).
+  - cbn [bind]. apply (find_dup_loop_shape _ b nm).
+Qed.
+
+Lemma last_child_loop_shape fuel b : forall c, last_child_loop fuel (shape_b b) c = last_child_loop fuel b c.
+Proof.
+  induction fuel as [|f IH]; intros c; cbn [last_child_loop]; [reflexivity|].
+  rewrite get_next_shape. destruct (get_next b c) as [[n|]| |]; cbn [bind]; try reflexivity. apply IH.
+Qed.
+
+Lemma find_last_child_shape b sc : find_last_child (shape_b b) sc = find_last_child b sc.
+Proof.
+  unfold find_last_child. rewrite items_fuel_shape. cbn [shape_b hb_scopes]. rewrite nth_error_map.
+  destruct (nth_error (hb_scopes b) sc) as [s|]; cbn [option_map of_option bind]; [|reflexivity].
+  cbn [shape_scope sc_child]. destruct (sc_child s) as [c|]; [|reflexivity]. rewrite last_child_loop_shape. reflexivity.
+Qed.
+
+Lemma hier_step_shape b op : hier_step (shape_b b) (shape_op op) = omap shape_b (hier_step b op).
+Proof.
+  destruct op as [nm comp t d f|nm t dir e i s tn|]; cbn [shape_op hier_step].
+  - unfold add_scope. rewrite find_duplicate_scope_shape.
+    destruct (find_duplicate_scope b nm) as [[dup|]| |]; cbn [bind omap]; try reflexivity.
+    + rewrite find_last_child_shape. destruct (find_last_child b dup); cbn [bind omap]; reflexivity.
+    + destruct f; [reflexivity|].
+      cbn [shape_b hb_vars hb_scopes hb_first hb_stack hb_handles]. rewrite map_length.
+      change (mk_builder (map shape_var (hb_vars b)) (map shape_scope (hb_scopes b))
+                (match hb_first b with None => Some (IScope (length (hb_scopes b))) | Some i => Some i end) (hb_stack b) (hb_handles b))
+        with (shape_b (mk_builder (hb_vars b) (hb_scopes b)
+                (match hb_first b with None => Some (IScope (length (hb_scopes b))) | Some i => Some i end) (hb_stack b) (hb_handles b))).
+      rewrite add_to_tree_shape.
+      match goal with |- context [add_to_tree ?x ?y] => destruct (add_to_tree x y) as [[b2 parent]| |] end; cbn [omap bind shape_bp fst snd]; try reflexivity.
+      unfold shape_b. cbn [hb_vars hb_scopes hb_first hb_stack hb_handles]. rewrite map_app. reflexivity.
+  - unfold add_var. cbn [shape_b hb_vars hb_scopes hb_first hb_stack hb_handles]. rewrite map_length.
+    change (mk_builder (map shape_var (hb_vars b)) (map shape_scope (hb_scopes b))
+              (match hb_first b with None => Some (IVar (length (hb_vars b))) | Some i => Some i end) (hb_stack b) (hb_handles b))
+      with (shape_b (mk_builder (hb_vars b) (hb_scopes b)
+              (match hb_first b with None => Some (IVar (length (hb_vars b))) | Some i => Some i end) (hb_stack b) (hb_handles b))).
+    rewrite add_to_tree_shape.
+    match goal with |- context [add_to_tree ?x ?y] => destruct (add_to_tree x y) as [[b2 parent]| |] end; cbn [omap bind shape_bp fst snd]; try reflexivity.
+    unfold shape_b. cbn [hb_vars hb_scopes hb_first hb_stack hb_handles]. rewrite map_app. reflexivity.
+  - unfold pop_scope. cbn [shape_b hb_stack]. destruct (hb_stack b); reflexivity.
+Qed.
+
+Lemma hier_run_shape ops : forall b, hier_run (shape_b b) (map shape_op ops) = omap shape_b (hier_run b ops).
+Proof.
+  induction ops as [|op r IH]; intros b; cbn [map hier_run]; [reflexivity|].
+  rewrite hier_step_shape. destruct (hier_step b op) as [b'| |]; cbn [omap bind]; [apply IH|reflexivity..].
+Qed.
+
+(* equal calls up to kinds, component, direction, source locators and type names give hierarchies equal up to those *)
+Theorem shaped_calls_same_tree ops1 ops2 b1 b2 :
+  map shape_op ops1 = map shape_op ops2 ->
+  hier_run hb_new ops1 = Ok b1 -> hier_run hb_new ops2 = Ok b2 ->
+  shape_b b1 = shape_b b2.
+Proof.
+  intros He H1 H2.
+  pose proof (hier_run_shape ops1 hb_new) as E1. pose proof (hier_run_shape ops2 hb_new) as E2.
+  rewrite H1 in E1. rewrite H2 in E2. cbn [omap] in E1, E2. rewrite He in E1. rewrite E1 in E2. assert (Hinj : forall x y : builder, Ok x = Ok y -> x = y) by (intros x y Hxy; inversion Hxy; reflexivity). exact (Hinj _ _ E2).
+Qed.
+
+(* and one of the two runs succeeds exactly when the other does *)
+Theorem shaped_calls_same_outcome ops1 ops2 :
+  map shape_op ops1 = map shape_op ops2 ->
+  omap shape_b (hier_run hb_new ops1) = omap shape_b (hier_run hb_new ops2).
+Proof.
+  intros He. rewrite <- (hier_run_shape ops1 hb_new), <- (hier_run_shape ops2 hb_new), He. reflexivity.
+Qed.
